@@ -616,6 +616,26 @@ func (vc *VC) specBinary(env *Env, x *SBinary) (Term, types.Type) {
 			return App(SInt, "div", a, BigLit(pow2(int(bi.Int64())))), rt
 		}
 	}
+	if x.Op == "&" || x.Op == "|" || x.Op == "^" || x.Op == "&^" {
+		// the same encoding as for the code (binopInt): a mask 2^k-1 is a remainder, anything else the
+		// uninterpreted bit operation of the operand width
+		if ii, ok := intInfoOf(rt); ok {
+			if x.Op == "&" {
+				for _, p := range [][2]Term{{b, a}, {a, b}} {
+					if c, lit := parseSMTInt(p[0].S); lit && c.Sign() >= 0 {
+						c1 := new(big.Int).Add(c, big.NewInt(1))
+						if new(big.Int).And(c1, c).Sign() == 0 {
+							return App(SInt, "mod", p[1], BigLit(c1)), rt
+						}
+					}
+				}
+			}
+			op := map[string]string{"&": "and", "|": "or", "^": "xor", "&^": "andnot"}[x.Op]
+			fname := fmt.Sprintf("bit$%s$%d", op, ii.bits)
+			vc.q.DeclareFun(fname, []Sort{SInt, SInt}, SInt)
+			return App(SInt, fname, a, b), rt
+		}
+	}
 	env.fail("unsupported operator %s in int mode (%s)", x.Op, specString(x))
 	return Term{}, nil
 }
